@@ -174,6 +174,10 @@ Definition uses_sequence (u : universe) : bool :=
   existsb (fun km => existsb (fun e => existsb (fun v => match v_sequence v with Some _ => true | None => false end) (snd e))
                              (m_elements (snd km))) (u_metas u).
 
+(* coverage: a nillable element field *)
+Definition uses_nillable (u : universe) : bool :=
+  existsb (fun km => existsb (fun e => existsb v_nillable (snd e)) (m_elements (snd km))) (u_metas u).
+
 (* coverage: a class with a field of its own type *)
 Definition uses_recursion (u : universe) : bool :=
   existsb (fun km => existsb (N.eqb (fst km)) (class_children u (snd km))) (u_metas u).
